@@ -33,7 +33,7 @@ ASSUMPTIONS = [
     "as_obj is modelled top-down: a payload position whose id is registered yields the registered object and its payload subtree is not visited",
     "at digest sizes 1 and 2 only the un-suffixed part of a fresh id is required to be deterministic (different contents collide)",
 ]
-MUST_SEE = [
+MUST_SEE = ["id_determinism_checks_with_occupied_neighbours", 
     "op_detach_stale_with_live_twin", "op_replace_fail", "drops", "suffix_ge_2", "detach_depth_ge2", "asobj_recreated",
     "asobj_reused", "digest1_histories", "dead_weakrefs_checked", "replace_on_stale", "id_determinism_checks", "replace_fail_after_registration",
 ]
@@ -69,6 +69,8 @@ class History:
         self.failed = False
 
     # ---- bookkeeping ----
+    idmap2: dict = {}  # per process: (content key, occupied neighbouring ids) -> id
+
     def bad(self, mech, what, **d):
         d["log"] = self.log[-25:]
         d["digest_size"] = self.digest
@@ -107,6 +109,11 @@ class History:
             if e is not None:
                 exp = e[1]()
             got = ASTNode.get_any(n.id)
+            # the any-type lookup is the same whichever class or instance it is called through
+            for via in (U.cls[f"{P}Leaf2"], U.cls[f"{P}Stmt"], n):
+                if via.get_any(n.id) is not got:
+                    self.bad("get_any", f"get_any(id) called through {via.__name__ if isinstance(via, type) else 'an instance'} differs from ASTNode.get_any(id)", op=op, id=n.id)
+                    return
             if got is not exp:
                 self.bad("get_any", "get_any(id) disagrees with the model", op=op, id=n.id)
                 return
@@ -150,7 +157,22 @@ class History:
         """A node created while no registered node has the same class, origin, comparable content and direct
         children gets the same id every time. Judged only at the default digest size (at sizes 1 and 2 other
         contents collide, so the id legitimately depends on what else is registered) and only without twin."""
-        if self.digest < 8 or had_twin:
+        if had_twin:
+            return
+        # at every digest size: the same content created again while the ids around its plain id are occupied in the
+        # same way (by nodes of other content: no twin) gets the same id again
+        from pyoak.node import NODE_REGISTRY
+
+        base = n.id.split("_")[0]
+        occ = tuple(sorted(k for k in list(NODE_REGISTRY.keys()) if k != n.id and (k == base or k.startswith(base + "_"))))
+        k2 = hashlib.blake2b(repr((full_key(self.U, n), occ)).encode("utf-8", "surrogatepass"), digest_size=10).hexdigest()
+        m2 = self.idmap2.setdefault(str(self.digest), {})
+        prev2 = m2.setdefault(k2, n.id)
+        if occ:
+            self.ctx.count("id_determinism_checks_with_occupied_neighbours")
+        if prev2 != n.id:
+            self.bad("id-nondeterministic", "the same class/origin/content/children, created again with the same neighbouring ids occupied (no registered twin), got a different id", id=n.id, prev=prev2, occupied=list(occ))
+        if self.digest < 8:
             return
         k = hashlib.blake2b(repr(full_key(self.U, n)).encode("utf-8", "surrogatepass"), digest_size=10).hexdigest()
         m = self.ctx.extra.setdefault("idmap", {}).setdefault(str(self.digest), {})
